@@ -90,6 +90,11 @@ def mk(case):
                 "OmittedXrangeCorrection": case["lowq"], "FourierFilter": {"Cutoff": case["cutoff"]}, "Outputs": {"StemName": "wf"}})
     if case.get("qwin"):
         st.qmin, st.qmax = case["qwin"]     # "Merging": {"Transform": {"Qmin", "Qmax"}}: the window of the ingestion step
+    if len(case["q"]) % 5 == 1:
+        # the instance loaded a dataset earlier, with the loading keywords of add_dataset's signature spelled out (precision of the loaded
+        # columns etc.): how the data were loaded is no business of the workflow steps, which act on the merged curve
+        st.add_dataset({"data": [np.array([1.0, 1.5, 2.0]), np.array([1.12345678, 0.9, 1.05]), np.array([0.01, 0.02, 0.03])],
+                        "ReciprocalFunction": "S(Q)"}, ydecimals=3, yscale=1.0, yoffset=0.0, xoffset=0.0)
     st.q_master[st.sq_title] = np.array(case["q"], dtype=float)
     st.sq_master[st.sq_title] = np.array(case["s"], dtype=float)
     if len(case["q"]) % 3 == 0:
